@@ -422,6 +422,51 @@ impl<C: Suite> Model for MTS<C> {
                             o.expect(&format!("{}:trait-pop-partial_sign:{}", p, g), matches!((&a, &b), (Ok(Ok(x)), Ok(Ok(y))) if x == y), "core_partial_sign under the PoP signature tag", "differs");
                         }
                         o.calls(2 + 5 * t as u64);
+                        // caller-supplied tags: every byte of the tag is bound, also trailing / leading whitespace, NUL, a
+                        // tag that is a prefix or an extension of a standard one, the longest tag (255 bytes)
+                        if c.v == 0 {
+                            let std = rdst.to_vec();
+                            let mut tags: Vec<(&str, Vec<u8>)> = vec![
+                                ("trailing-newline", [b"VERIF-APP-V01-CS01-with-BLS12381_XMD:SHA-256_SSWU_RO_".as_slice(), b"\n"].concat()),
+                                ("trailing-space", b"VERIF-APP-V01-CS01-with-BLS12381_XMD:SHA-256_SSWU_RO_ ".to_vec()),
+                                ("trailing-crlf", b"VERIF-APP-V01-CS01-with-BLS12381_XMD:SHA-256_SSWU_RO_\r\n".to_vec()),
+                                ("trailing-tab", b"VERIF-APP-V01\t".to_vec()),
+                                ("trailing-nul", b"VERIF-APP-V01\0".to_vec()),
+                                ("leading-space", b" VERIF-APP-V01".to_vec()),
+                                ("standard-plus-space", [std.as_slice(), b" "].concat()),
+                                ("standard-minus-last-byte", std[..std.len() - 1].to_vec()),
+                                ("standard-lowercase", std.to_ascii_lowercase()),
+                                ("255-bytes", vec![b'T'; 255]),
+                                ("one-byte", b"T".to_vec()),
+                            ];
+                            tags.push(("whitespace-only", b" \n".to_vec()));
+                            let trimmed = |t: &[u8]| -> Vec<u8> { String::from_utf8_lossy(t).trim().as_bytes().to_vec() };
+                            for (tn, tag) in &tags {
+                                for s in chosen.iter().take(2) {
+                                    let Some(x) = rsc_of_share::<C>(&s.0) else { continue };
+                                    let want = rf::enc(&rf::core_sign::<C::R>(&x, msg, tag));
+                                    let r = guard(|| <C as BlsSignatureCore>::core_partial_sign(&s.0, msg, tag));
+                                    let ok = matches!(&r, Ok(Ok(y)) if y.identifier() == s.0.identifier() && y.as_group_element::<SgP<C>>().ok().map(|z| pt(&z)) == Some(want.clone()));
+                                    o.expect(&format!("{}:trait-core_partial_sign-custom-tag:{}:{}", p, g, tn), ok, "H(m, tag) * share under exactly this tag", verdict(&r));
+                                    // the share verifier accepts the reference-made partial signature under this tag, and refuses
+                                    // it under the tag with its surrounding whitespace removed
+                                    let Ok(Ok(pks)) = guard(|| <C as BlsSignatureCore>::public_key_share(&s.0)) else { continue };
+                                    let mut ss = <C as Pairing>::SignatureShare::empty_share_with_capacity(want.len());
+                                    *ss.identifier_mut() = s.0.identifier();
+                                    if ss.value_mut(&want).is_err() {
+                                        continue;
+                                    }
+                                    let r = guard(|| <C as BlsSignatureCore>::core_signature_share_verify(pks, ss, msg, tag));
+                                    o.expect(&format!("{}:trait-core_signature_share_verify-custom-tag:{}:{}", p, g, tn), matches!(&r, Ok(Ok(()))), "accept", verdict(&r));
+                                    let other = trimmed(tag);
+                                    if other != *tag && !other.is_empty() {
+                                        let r = guard(|| <C as BlsSignatureCore>::core_signature_share_verify(pks, ss, msg, &other));
+                                        o.expect(&format!("{}:trait-core_signature_share_verify-trimmed-tag:{}:{}", p, g, tn), matches!(&r, Ok(Err(_))), "reject", verdict(&r));
+                                    }
+                                    o.calls(3);
+                                }
+                            }
+                        }
                     }
                     _ => {
                         let ent = data32(self.seed, &format!("tsurf-sc-{}-{}-{}", c.k, c.m, sn));
